@@ -141,6 +141,17 @@ Theorem registries_never_appended_in_place :
 Proof. exact registries_never_appended_in_place_lemma. Qed.
 Print Assumptions registries_never_appended_in_place.
 
+(* cached slices / maps escaping the lock: on the escape and in-place-mutation tables regenerated from
+   clients/datasource and clients/resolution, no value obtained from a function that returns struct-held memory
+   without copying is sorted / reversed / index-assigned / appended-into by its caller (the tables are not
+   empty: there are escaping functions, and there are in-place sorts - of freshly built slices) *)
+Theorem no_cached_slice_mutated_in_place :
+  cached_mutations client_escapes client_mutations = [] /\
+  client_escapes <> [] /\
+  existsb (fun m => String.eqb (m_op m) "slices.SortFunc" && String.eqb (m_origin m) "fresh") client_mutations = true.
+Proof. exact no_cached_slice_mutated_in_place_lemma. Qed.
+Print Assumptions no_cached_slice_mutated_in_place.
+
 (* ================================================================== non-vacuity *)
 (* a strategy with a spawned attempt: two delivery orders, same result; hypotheses hold on its outputs *)
 Example compute_example :
@@ -190,3 +201,7 @@ Example append_shape_is_detected :
   existsb (fun p => match ca_kind (fst p), ca_kind (snd p) with AA, AA => true | _, _ => false end)
           (unprotected_pairs (map with_in_place_append client_accesses)) = true.
 Proof. exact append_shape_is_detected_lemma. Qed.
+
+Example cached_mutation_shape_is_detected :
+  map m_expr (cached_mutations seeded_escapes seeded_mutations) = ["vers.Versions"]%string.
+Proof. exact cached_mutation_shape_is_detected_lemma. Qed.
